@@ -191,6 +191,9 @@ class _BadiYearMonthDayCalculator(_YearMonthDayCalculator):
 
     def _months_between(self, start: _YearMonthDay, end: _YearMonthDay) -> int:
         start_month = start._month
+        if self.__is_in_ayyami_ha(start) and end < start:
+            # _add_months counts backwards out of Ayyam-i-Ha from month 19
+            start_month += 1
         start_year = start._year
 
         end_month = end._month
